@@ -23,6 +23,7 @@ from asyncfix.protocol.schema import FIXSchema
 warnings.simplefilter("ignore")
 
 HEADER_SKIP = {"8", "9", "35", "10"}
+_RND = random.Random(5)
 
 
 class Dict:
@@ -97,7 +98,11 @@ def wrong_type_value(d, name):
     if f["enum"]:
         return "~not-in-enum~"
     t = f["type"]
-    if t in ("INT", "SEQNUM", "NUMINGROUP", "DAYOFMONTH", "FLOAT", "QTY", "PRICE", "PRICEOFFSET", "AMT", "PERCENTAGE"):
+    if t in ("SEQNUM", "NUMINGROUP") and f["tag"] != "16":
+        return _RND.choice(["12x", "0", "-3"])  # (zero / negative counters are outside the type; EndSeqNo=0 is legal)
+    if t == "DAYOFMONTH":
+        return _RND.choice(["12x", "32", "0"])
+    if t in ("INT", "SEQNUM", "NUMINGROUP", "FLOAT", "QTY", "PRICE", "PRICEOFFSET", "AMT", "PERCENTAGE"):
         return "12x"
     if t in ("CHAR", "BOOLEAN"):
         return "toolong"
@@ -300,6 +305,12 @@ def run(params):
         d = Dict(path)
         schema = FIXSchema(path)
         perm = [permuted_schema(path, rnd) for _ in range(params.get("permutations", 2))]
+        # everyday traffic first: the verdicts below must not depend on what the schema object validated before
+        for sc_ in [schema] + perm:
+            try:
+                sc_.validate(FIXMessage("2", {7: "1", 16: "0"}))
+            except Exception:
+                pass
         for mtype, (mname, members) in d.messages.items():
             for k in range(params.get("instances", 3)):
                 inst = build(d, members, rnd, all_optional=rnd.choice([0.0, 0.3, 1.0]))
